@@ -40,4 +40,5 @@ func main() {
 	genC14()
 	genWScreen()
 	genKeys()
+	genLockFacts()
 }
